@@ -32,6 +32,7 @@ GEOMETRY = [(HYP, q) for q in (
 
 
 def run(ctx):
+    ctx.do(NP.rule_putmask1, ["geometry_tools/hyperbolic.py", "geometry_tools/projective.py", "geometry_tools/complex_projective.py", "geometry_tools/utils/core.py"])
     ctx.do(S.rule_sh1)
     ctx.do(S.rule_sh2)
     ctx.do(S.rule_sh3)
